@@ -318,3 +318,96 @@ class FakeNumpyRandom(Fake):
                 return CoinFloat(self.ch, "np.uniform")
             raise UnownedRandomness("np.random.uniform(%r, %r) scalar" % (low, high))
         return self._menu("uniform", size)
+
+
+class FakeGenerator(Fake):
+    """stands in for a numpy Generator (default_rng(seed)) stored on an object.
+
+    menus: {"random": fn(shape)->list of arrays, "exponential": fn(scale, size)->list, "normal": fn(loc, scale)->list,
+            "poisson": fn(lam)->list}; integer draws are enumerated completely."""
+
+    def __init__(self, ch, real_np, menus=None, tag="rng", seed=None):
+        self.ch = ch
+        self.np = real_np
+        self.menus = menus or {}
+        self.tag = tag
+        self.seed = seed
+        self.draws = 0
+
+    def _menu(self, name, *args):
+        m = self.menus.get(name)
+        if m is None:
+            raise UnownedRandomness("%s.%s%r needs a value menu" % (self.tag, name, args))
+        opts = m(*args)
+        self.draws += 1
+        if len(opts) == 1:
+            return self.np.array(opts[0], dtype=float)
+        return self.np.array(opts[self.ch.choose(len(opts), "%s.%s-menu" % (self.tag, name))], dtype=float)
+
+    def random(self, size=None, *more):
+        if size is None:
+            self.draws += 1
+            return CoinFloat(self.ch, self.tag + ".random")
+        return self._menu("random", (size,) + more if more or not isinstance(size, tuple) else size)
+
+    def exponential(self, scale=1.0, size=None):
+        return self._menu("exponential", scale, size)
+
+    def normal(self, loc=0.0, scale=1.0, size=None):
+        return self._menu("normal", loc, scale)
+
+    def poisson(self, lam=1.0, size=None):
+        r = self._menu("poisson", lam)
+        return r.astype(int)
+
+    def integers(self, low, high=None, size=None, endpoint=False):
+        if high is None:
+            low, high = 0, low
+        n = int(high) - int(low) + (1 if endpoint else 0)
+        self.draws += 1
+        if size is None:
+            return int(low) + self.ch.choose(n, self.tag + ".integers")
+        k = int(size) if not isinstance(size, tuple) else int(self.np.prod(size))
+        vals = [int(low) + self.ch.choose(n, self.tag + ".integers", 1 if i == 0 else 0) for i in range(k)]
+        return self.np.array(vals).reshape(size)
+
+    def choice(self, a, size=None, replace=True, p=None, shuffle=True):
+        pop = list(range(a)) if isinstance(a, (int, self.np.integer)) else list(a)
+        idx = list(range(len(pop)))
+        if p is not None:
+            idx = [i for i in idx if list(p)[i] > 0]
+        self.draws += 1
+        if size is None:
+            return pop[idx[self.ch.choose(len(idx), self.tag + ".choice")]]
+        k = int(size)
+        if replace:
+            return self.np.array([pop[idx[self.ch.choose(len(idx), self.tag + ".choice")]] for _ in range(k)])
+        if k > len(idx):
+            raise ValueError("Cannot take a larger sample than population when replace is False")
+        combos = subsets_k(len(idx), k)
+        if len(combos) * _fact(k) <= 24:
+            combos = [q for c in combos for q in itertools.permutations(c)]  # ordered k-tuples when there are few
+        sel = combos[self.ch.choose(len(combos), self.tag + ".choice-noreplace")]
+        return self.np.array([pop[idx[i]] for i in sel])
+
+    def permutation(self, x):
+        n = int(x) if isinstance(x, (int, self.np.integer)) else len(x)
+        base = list(range(n)) if isinstance(x, (int, self.np.integer)) else list(x)
+        perms = list(itertools.permutations(range(n)))
+        self.draws += 1
+        p = perms[self.ch.choose(len(perms), self.tag + ".permutation")]
+        return self.np.array([base[i] for i in p])
+
+
+class GeneratorFactory(Fake):
+    """stands in for `np.random` where the code only calls default_rng(seed): hands out tagged FakeGenerators"""
+
+    def __init__(self, ch, real_np, menus, prefix="rng"):
+        self.ch, self.np, self.menus, self.prefix = ch, real_np, menus, prefix
+        self.made = []
+        self.Generator = real_np.random.Generator
+
+    def default_rng(self, seed=None):
+        g = FakeGenerator(self.ch, self.np, self.menus, tag="%s%d" % (self.prefix, len(self.made)), seed=seed)
+        self.made.append(g)
+        return g
